@@ -36,6 +36,7 @@ type Recorder struct {
 	Lock       *sync.Mutex
 	OnWrite    func(bodyLen int) // optional monitor callback (C16)
 	declared   int64
+	DroppedCL  string // invalid Content-Length that net/http would have dropped
 }
 
 func newRecorder() *Recorder { return &Recorder{hdr: http.Header{}, declared: -1} }
@@ -90,7 +91,9 @@ func (r *Recorder) writeHeaderLocked(code int, explicit bool) {
 	if cl := r.Snap.Get("Content-Length"); cl != "" {
 		n, err := strconv.ParseInt(cl, 10, 64)
 		if err != nil || n < 0 {
-			r.fault("unparsable Content-Length " + strconv.Quote(cl))
+			// net/http logs "invalid Content-Length" and drops the header
+			r.Snap.Del("Content-Length")
+			r.DroppedCL = cl
 		} else {
 			r.declared = n
 		}
